@@ -8,7 +8,7 @@ C12-layout: every reader and writer of a method's slots-and-strides array uses t
 C12-check : with runtime_checks every compile-time offset is cross-checked against the cell the
             installer wrote for the same position, and a mismatch reaches the handler + abort."""
 import re
-from .. import common, astq, callpath, witness, walk, sym, irq, path, eff
+from .. import crules, common, astq, callpath, witness, walk, sym, irq, path, eff
 
 SS = "slots_strides_ptr"
 
@@ -382,20 +382,43 @@ def codec_rule(run, rule, ast):
             run.violation(rule, "decode_dispatch_data|block-copy", "decode_dispatch_data copies %s cells into slots_strides_ptr (expected 2*arity - 1)" % (
                 [astq.aff_show(h[0]) for h in hits]), (f["file"], hits[0][1]["l"] if hits else f["line"]))
     for f in [f for f in ast.funcs if f.get("body") and "generator::encode_dispatch_data<" in f["name"] and len(f["params"]) == 3]:
-        order = []
-        for n in astq.walk(f["body"]):
-            if n.get("k") == "CallExpr" and (n.get("callee") or "").startswith("std::transform<"):
-                a0 = n["c"][1]
-                mem = [x["member"] for x in astq.walk(a0) if x.get("k") == "MemberExpr" and x.get("member") in ("slots", "strides", "dispatch_table")]
-                if mem and mem[0] in ("slots", "strides"):
-                    order.append((mem[0], n["l"]))
-        if not order:
-            run.broken.append("%s: emission of slots / strides not recognised" % f["name"][:70])
-            continue
-        ok = [o[0] for o in order] == ["slots", "strides"]
-        run.instance(rule, "%s: emits a method's slots, then its strides" % f["name"][:70], (f["file"], f["line"]), ok=ok)
-        if not ok:
-            run.violation(rule, "generator::encode_dispatch_data|order", "encode_dispatch_data emits %s (expected slots then strides)" % [o[0] for o in order], (f["file"], f["line"]))
+        encoder_layout_rule(run, rule, f)
+
+
+def encoder_layout_rule(run, rule, f):
+    """the encoder emits, per method, ALL its slots and then ALL its strides (the decoder block-copies the 2*arity-1 words to the
+    start of slots_strides, whose layout is slots-then-strides): emissions are whole-range algorithms or element loops over one of
+    the two vectors; a loop that emits a slot and a stride in the same iteration interleaves them (identical up to arity 2 only)."""
+    byid, parent = astq.index_nodes(f)
+    ems = []
+    for n in astq.walk(f["body"]):
+        kind = None
+        if n.get("k") == "CallExpr" and re.match(r"^std::(transform|copy|copy_n|for_each)<", n.get("callee") or ""):
+            mem = [x["member"] for x in astq.walk(n["c"][1]) if x.get("k") == "MemberExpr" and x.get("member") in ("slots", "strides", "dispatch_table")]
+            if mem and mem[0] in ("slots", "strides"):
+                kind = mem[0]
+        elif n.get("k") == "CXXOperatorCallExpr" and n.get("oop") == "<<" and len(n.get("c") or []) >= 3:
+            mem = [x["member"] for x in astq.walk(n["c"][2]) if x.get("k") == "MemberExpr" and x.get("member") in ("slots", "strides")]
+            if mem and any(x.get("k") == "CXXOperatorCallExpr" and x.get("oop") == "[]" for x in astq.walk(n["c"][2])):
+                kind = mem[0]
+        if kind:
+            # an element-wise emission (`os << v[i]`) belongs to its innermost loop; a whole-range algorithm iterates by itself
+            loops = crules._enclosing(parent, n, ("ForStmt", "WhileStmt", "CXXForRangeStmt")) if n.get("k") == "CXXOperatorCallExpr" else []
+            ems.append((kind, n, loops[0] if loops else None))
+    if not ems:
+        run.broken.append("%s: emission of slots / strides not recognised" % f["name"][:70])
+        return
+    kinds = [k for k, _, _ in ems]
+    inter = [(a, b) for a in ems for b in ems if a[0] == "slots" and b[0] == "strides" and a[2] is not None and a[2] is b[2]]
+    order_ok = "slots" in kinds and "strides" in kinds and max(i for i, k in enumerate(kinds) if k == "slots") < min(i for i, k in enumerate(kinds) if k == "strides") and \
+        max(e[1]["l"] for e in ems if e[0] == "slots") <= min(e[1]["l"] for e in ems if e[0] == "strides")
+    ok = order_ok and not inter
+    run.instance(rule, "%s: emits a method's slots, then its strides" % f["name"][:70], (f["file"], f["line"]), ok=ok)
+    if inter:
+        run.violation(rule, "generator::encode_dispatch_data|interleaved", "encode_dispatch_data emits a slot and a stride in the same loop iteration (lines %s, %s): slot_k and stride_k alternate, the decoder and the installed layout keep all slots first" % (
+            inter[0][0][1]["l"], inter[0][1][1]["l"]), (f["file"], inter[0][1][1]["l"]))
+    elif not ok:
+        run.violation(rule, "generator::encode_dispatch_data|order", "encode_dispatch_data emits %s (expected slots then strides)" % kinds, (f["file"], f["line"]))
 
 
 def check_rule(run, rule, u):
